@@ -10,6 +10,7 @@ import (
 	"errors"
 	"io"
 
+	"mellium.im/xmlstream"
 	"mellium.im/xmpp/stream"
 )
 
@@ -59,7 +60,10 @@ func (r *reader) Token() (xml.Token, error) {
 		switch t.Name.Local {
 		case "error":
 			e := stream.Error{}
-			err = xml.NewTokenDecoder(r.r).DecodeElement(&e, &t)
+			// Give the decoder the start token back: a new token decoder that has
+			// not seen it panics in DecodeElement for types that unmarshal
+			// themselves (and r.r is not necessarily a *xml.Decoder).
+			err = xml.NewTokenDecoder(xmlstream.MultiReader(xmlstream.Token(t), r.r)).Decode(&e)
 			if err != nil {
 				return nil, err
 			}
